@@ -27,6 +27,9 @@ def carried (tbl : LicenseMap) (name : Text) : Text × Bool :=
     else if ss.2.isEmpty && isLicenseRef name then (name, true)
     else (ss.1, false)
 
+/-- the identifier carried by the LICENSES/ entry at `p` -/
+def idOf (tbl : LicenseMap) (p : Text) : Text := (carried tbl (pathName p)).1
+
 /-- "known SPDX identifier or a LicenseRef-" -/
 def Valid (tbl : LicenseMap) (k : Text) : Prop := tbl.has k = true ∨ isLicenseRef k = true
 
